@@ -23,7 +23,7 @@ ASSUMPTIONS = [
 ]
 
 STATES = ["unpinned", "pinned-same", "pinned-different", "unparsable", "unparsable-pinned", "changed-after-success",
-          "pinned-twin", "pinned-different-expired", "pinned-other-port", "pinned-long-ago", "pinned-then-failed-import"]
+          "pinned-twin", "pinned-different-expired", "pinned-other-port", "pinned-long-ago", "pinned-then-failed-import", "pinned-during-handshake", "pinned-different-after-failed-handshake"]
 HOSTS = ["target", "target", "0:0:0:0:0:0:0:1", "target."]
 OPS = ["get", "get-query", "upload", "delete"]
 
@@ -84,8 +84,11 @@ def run_case(case: dict):
     case = dict(case)
     if case["op"] != "get":
         case["redirect"] = False  # only plain fetches follow redirects
+    if case["state"] == "pinned-during-handshake":
+        case["dbfault"] = None    # the pin written by the other party must really be there
     state = case["state"]
-    presented = {"unpinned": "ec-a", "pinned-same": "ec-a", "pinned-different": "ec-b", "pinned-twin": "twin-b", "pinned-different-expired": "ec-expired", "pinned-other-port": "ec-b", "pinned-long-ago": "ec-b", "pinned-then-failed-import": "ec-b",
+    presented = {"unpinned": "ec-a", "pinned-same": "ec-a", "pinned-different": "ec-b", "pinned-twin": "twin-b", "pinned-different-expired": "ec-expired", "pinned-other-port": "ec-b", "pinned-long-ago": "ec-b", "pinned-then-failed-import": "ec-b", "pinned-during-handshake": "ec-b",
+                 "pinned-different-after-failed-handshake": "ec-b",
                  "unparsable": "hostile-bool", "unparsable-pinned": "hostile-v4", "changed-after-success": "ec-b"}[state]
     T = case.get("host") or "target"  # the spelling of the target host in URLs, pins and redirects
     TA = f"[{T}]" if ":" in T else T
@@ -101,6 +104,10 @@ def run_case(case: dict):
         else:
             script = [("stall",)]
         target = memnet.ScriptedPeer(certs.get(presented), script, minv=v, maxv=v)
+        if state == "pinned-different-after-failed-handshake":
+            target.fail_first_n = 1      # the first connection attempt gets junk instead of a handshake
+        if state == "pinned-during-handshake":
+            target.handshake_delay = 2.0  # the peer lets the handshake wait; meanwhile the host gets pinned (see below)
         net.add(T, 1965, target)
         good = memnet.ScriptedPeer(certs.get("rsa-a"), [("wait_request", 1.0), ("send", f"30 gemini://{TA}/landing?from=good\r\n".encode()), ("close",)])
         net.add("good", 1965, good)
@@ -110,7 +117,7 @@ def run_case(case: dict):
             db.trust(T, 1966, x509.load_der_x509_certificate(certs.get("ec-b").der))
             db.trust(T, 300, x509.load_der_x509_certificate(certs.get("ec-b").der))
         if state in ("pinned-same", "pinned-different", "unparsable-pinned", "pinned-different-expired", "pinned-other-port",
-                     "pinned-long-ago", "pinned-then-failed-import"):
+                     "pinned-long-ago", "pinned-then-failed-import", "pinned-different-after-failed-handshake"):
             db.trust(T, 1965, x509.load_der_x509_certificate(certs.get("ec-a").der))
         if state == "pinned-twin":
             # the pinned certificate and the presented one share issuer name and serial number (both are chosen by
@@ -153,6 +160,15 @@ def run_case(case: dict):
             target.script = script
             target.conns.clear()
             target.cert_sequence = [certs.get("ec-b")]
+        if state == "pinned-during-handshake":
+            async def pin_later():
+                import asyncio as _a
+
+                await _a.sleep(1.0)
+                # another client (or `nauyaca tofu trust`) pins the genuine certificate while our handshake is still pending
+                TOFUDatabase(dbpath).trust(T, 1965, x509.load_der_x509_certificate(certs.get("ec-a").der))
+
+            loop.create_task(pin_later())
         snaps = []
         orig_verify = TOFUDatabase.verify
 
@@ -202,7 +218,7 @@ def run_case(case: dict):
 
         shutil.rmtree(d, ignore_errors=True)
     should_fail = state in ("pinned-different", "unparsable", "unparsable-pinned", "changed-after-success", "pinned-twin", "pinned-different-expired", "pinned-other-port", "pinned-long-ago",
-                           "pinned-then-failed-import")
+                           "pinned-then-failed-import", "pinned-during-handshake", "pinned-different-after-failed-handshake")
     if case.get("dbfault") and not should_fail:
         # the matching pin could not be (fully) consulted/updated: the call may fail or succeed; nothing to require here
         # beyond 'nothing before verification started', which was checked above
